@@ -34,10 +34,14 @@ def fsc_landscape(
                 sigma0 = backend.sqrt(
                     backend.sum_labels(pw0, labels=labels, index=index)
                 )
-                fsc = backend.sum_labels(cov, labels=labels, index=index) / (
-                    sigma0 * sigma1
-                )
-                out[iz, iy, ix] = float(fsc.mean())
+                # NOTE: shells without power (e.g. emptied by the missing wedge) are
+                # not counted, otherwise 0/0 turns the whole landscape into NaN.
+                norm = sigma0 * sigma1
+                valid = norm > 0
+                if not valid.any():
+                    continue
+                cov_sum = backend.sum_labels(cov, labels=labels, index=index)
+                out[iz, iy, ix] = float((cov_sum[valid] / norm[valid]).mean())
     return out
 
 
